@@ -272,6 +272,9 @@ def check_pair(ffname, first, second, naming, acc, sample=False, heavy_only=Fals
     key = 0
     info = []
     link = {}
+    icode = heavy_only == 'icode'      # all atoms present; both residues numbered 5 and told apart by the insertion code only
+    if icode:
+        heavy_only = False
     for resid, blockname in enumerate((first, second), start=1):
         names, elements, edges = block_info(ff.blocks[blockname])
         base = key
@@ -281,6 +284,8 @@ def check_pair(ffname, first, second, naming, acc, sample=False, heavy_only=Fals
                 continue
             local[idx] = key
             attrs = {'element': element, 'resname': blockname, 'resid': resid, 'chain': 'A'}
+            if icode:
+                attrs.update(resid=5, insertion_code=('', 'A')[resid - 1])
             if naming == 'canonical':
                 attrs['atomname'] = name
             elif naming == 'junk':
@@ -302,7 +307,9 @@ def check_pair(ffname, first, second, naming, acc, sample=False, heavy_only=Fals
         return
     problems = []
     for resid, (blockname, names, elements, edges, base) in enumerate(info, start=1):
-        nodes = [(k, d) for k, d in out.nodes(data=True) if d['resid'] == resid]
+        def mine(d, resid=resid):
+            return d.get('insertion_code', '') == ('', 'A')[resid - 1] if icode else d['resid'] == resid
+        nodes = [(k, d) for k, d in out.nodes(data=True) if mine(d)]
         flagged = [d.get('atomname') for _, d in nodes if d.get('PTM_atom')]
         got_names = sorted(str(d.get('atomname')) for _, d in nodes if not d.get('PTM_atom'))
         if flagged or len(nodes) != len(names):
@@ -321,7 +328,7 @@ def check_pair(ffname, first, second, naming, acc, sample=False, heavy_only=Fals
             break
         want = {frozenset((names[a], names[b])) for a, b in edges}
         have = {frozenset((out.nodes[a]['atomname'], out.nodes[b]['atomname'])) for a, b in out.edges
-                if out.nodes[a]['resid'] == resid and out.nodes[b]['resid'] == resid}
+                if mine(out.nodes[a]) and mine(out.nodes[b])}
         if want != have:
             problems.append(('c04:pair-bonds-not-preserved', 'residue %d (%s): bonds by name differ from the block: %r' % (
                 resid, blockname, sorted(map(sorted, want ^ have))[:4])))
@@ -450,6 +457,9 @@ def run(ctx):
     # heavy atoms only (the usual content of a PDB file): every ordered pair
     pairs += [('amber', a, b, naming, True) for a in amber for b in amber for naming in ('junk', 'none')]
     pairs += [('amber', a, b, 'canonical', h) for a in amber[::3] for b in amber[::4] for h in (False, True)]
+    # two residues of one number told apart by their insertion codes only (5 and 5A), incl. twice the same residue name
+    pairs += [('amber', a, b, naming, 'icode') for a in amber[::2] for b in ([a] + amber[1::5]) for naming in ('canonical', 'junk')
+              if len(load_ff('amber').blocks[a]) <= 16 and len(load_ff('amber').blocks[b]) <= 16]
     acc = Acc()
     for part in common.pmap(work, [('pairs', chunk) for chunk in common.chunked(pairs, 24)]):
         acc += part
